@@ -286,8 +286,11 @@ structure Result where
 deriving Repr, DecidableEq
 
 /-- the non-consuming, non-terminal copy of the initial node -/
+def initCopy (F : Fsm) (bytes : Bool) (v : Variant) : Node :=
+  { terminal := false, any := (origNode F bytes v F.init).any, exact := (origNode F bytes v F.init).exact }
+
 def initNode (F : Fsm) (bytes : Bool) (v : Variant) : Option Node :=
-  if F.kept F.init then some { origNode F bytes v F.init with terminal := false } else none
+  if F.kept F.init then some (initCopy F bytes v) else none
 
 def rxRunChunks (F : Fsm) (bytes : Bool) (v : Variant) (chunks : List (List Sym)) : Result :=
   if refused F bytes then ⟨.refused, []⟩ else
